@@ -186,7 +186,7 @@ class Uploader:
         self.ticket += 1
         ticket = self.ticket
         data = self.files[filename]
-        if link.closed or link.writer.is_closing():
+        if link is None or link.closed or link.writer.is_closing():
             try:
                 link = await self.peer.dial(self.client_port, 'P', host=self.w.net.ip_of(self.client_name))
             except (ConnectionError, OSError):
